@@ -30,6 +30,7 @@ def run(tier):
         for g in ('equil', 'scale'):
             chk.clause('C05.' + g, 'R3 oracle group `%s` of ?gssvx' % g)
         chk.clause('C05.phases', 'R3 oracle group `phases` of ?gssvx')
+        chk.clause('C05.refine', 'R3 oracle group `refine` of ?gssvx (arguments of ?gsrfs)')
         chk.clause('C01.D2', 'R3/R7 permutation roles and solve order of ?gstrs')
         nleaves = 0
         for p in _drv.PRECS:
@@ -45,6 +46,10 @@ def run(tier):
             f2, fl2, leaves2 = _gssvx.leaves_for(prog, eff, p, ilu=False, tier=tier, split=('Fact', 'ColPerm', 'A.Stype', 'Equil', 'info', 'lwork'))
             _expert.run_leaf_groups(chk, 'C05', _expert.Ctx(prog, f2, fl2, p, False), leaves2, ('phases',), cfgname)
             c01.gstrs_oracle(chk, prog, eff, p, cfgname)
+            # the refinement must work on the same (reversed, for row storage) transpose flag as the solve, else it "refines" X towards the
+            # solution of the other system
+            f3, fl3, leaves3 = _gssvx.leaves_for(prog, eff, p, ilu=False, tier=tier, split=('Fact', 'Trans', 'A.Stype', 'IterRefine', 'B.ncol', 'info'))
+            _expert.run_leaf_groups(chk, 'C05', _expert.Ctx(prog, f3, fl3, p, False), leaves3, ('refine',), cfgname)
         if nleaves < 4 * 300:
             raise AnalysisBroken('C05: %d leaf valuations explored, floor %d' % (nleaves, 1200))
         chk.notes.append('%s: %d leaf valuations of ?gssvx' % (cfgname, nleaves))
